@@ -177,12 +177,14 @@ class C20(HistoryCheck):
             else:
                 self.drive_threads(ctx)
         finally:
-            repair_globals(self.base)
-            if pre:
-                repair_globals(clean)
+            repair_globals(clean)  # (also undoes a registration made before or in the middle of the run)
 
     # -- sequential part -----------------------------------------------------------------
     def next_op(self, ctx, world, gen):
+        if ctx.src.chance(0.04):
+            # at a quiescent point the application registers (or withdraws) its own way of reducing modules: from then
+            # on THAT is what the table must hold whenever no copy is in progress
+            return {"op": "register", "id": world.fresh_id(), "on_off": ctx.src.choice(["on", "on", "off"])}
         op = gen.gen()
         if op["op"] == "deepcopy" and ctx.src.chance(0.6):
             op["wrap"] = ctx.src.randint(1, 3)  # deepcopy of an instance nested in containers to depth 3
@@ -227,6 +229,13 @@ class C20(HistoryCheck):
             # this attributes a leaked reference count to the execution that leaked it.
             from spec_classes.utils.mutation import protect_via_deepcopy
 
+            # (while the application's own entry is registered the library leaves the table alone, and an unbalanced
+            # count would only show once that entry is withdrawn: the follow-up copy is made with the entry withdrawn
+            # for its duration, which an application may do at any quiescent point)
+            own = self.base.get(types.ModuleType, None)
+            expect = {k: v for k, v in self.base.items() if k is not types.ModuleType}
+            if own is not None:
+                copyreg.dispatch_table.pop(types.ModuleType, None)
             try:
                 protect_via_deepcopy([1])
             except BaseException as e:  # noqa: BLE001
@@ -234,8 +243,10 @@ class C20(HistoryCheck):
                     raise
                 ctx.violate({"invariant": "copy_after_abort_succeeds", "mode": "seq", "exc": type(e).__name__},
                             {"op": op, "plan": plan}, step=idx)
-                repair_globals(self.base)
-            added, removed, changed = table_diff(self.base)
+                repair_globals(expect)
+            added, removed, changed = table_diff(expect)
+            if own is not None and not (added or removed or changed):
+                copyreg.dispatch_table[types.ModuleType] = own
             when = "after_next_copy"
         if added or removed or changed:
             ctx.violate({"invariant": "dispatch_table_restored", "mode": "seq", "op": label, "fault": fk, "site": site,
@@ -248,6 +259,14 @@ class C20(HistoryCheck):
         return out
 
     def step(self, ctx, world, op, idx):
+        if op["op"] == "register":
+            if op["on_off"] == "on":
+                copyreg.dispatch_table[types.ModuleType] = _user_module_reductor
+            else:
+                copyreg.dispatch_table.pop(types.ModuleType, None)
+            self.base = table_snapshot()
+            ctx.log(op["id"], "register", op["on_off"])
+            return None
         if op.get("probe"):
             ctx.bump("probes")
             out0 = self._exec(ctx, world, op, idx, None, count_lines=True)
